@@ -6,6 +6,7 @@ package main
 import (
 	"fmt"
 	"go/ast"
+	"go/constant"
 	"go/token"
 	"go/types"
 	"sort"
@@ -1258,6 +1259,25 @@ func (fc *fnCtx) execLookup(st *State, x *ssa.Lookup) {
 		return
 	}
 	v, ok := fc.mapLookup(st, base, idx)
+	if tbl, gname := fc.eng.tableOf(x.X); tbl != nil {
+		// constant table built by the package's init from a literal: case analysis over its keys
+		mt := x.X.Type().Underlying().(*types.Map)
+		val := fc.S().Zero(mt.Elem())
+		var hit []string
+		for i := len(tbl.entries) - 1; i >= 0; i-- {
+			e := tbl.entries[i]
+			var c string
+			if isString(mt.Key()) {
+				c = fc.strEqLit(idx.T, constant.StringVal(e.key.Value))
+			} else {
+				c = eq(idx.T, fc.constVal(e.key.Value, mt.Key()).T)
+			}
+			hit = append(hit, c)
+			val = ite(c, fc.constVal(e.val.Value, mt.Elem()).T, val)
+		}
+		v, ok = Val{T: val, Ty: mt.Elem()}, or(hit...)
+		fc.top.tablesUsed[gname] = true
+	}
 	if x.CommaOk {
 		vn := fc.defs.Define(x.Name()+".v", fc.S().SortOf(v.Ty), v.T)
 		okn := fc.defs.Define(x.Name()+".ok", "Bool", ok)
